@@ -60,6 +60,9 @@ func handleMore(cmd string, a []string) (string, bool) {
 				for i := uint64(0); i < k; i++ {
 					m.Inc()
 				}
+			case 'A':
+				// one Add of k (the pipelines' byte and line counters use it)
+				m.Add(int64(u64(op[1:])))
 			case 'W':
 				time.Sleep(time.Duration(u64(op[1:])))
 			case 'Y':
@@ -78,6 +81,52 @@ func handleMore(cmd string, a []string) (string, bool) {
 		out := hx(lb.buf.Bytes())
 		lb.mu.Unlock()
 		return out, true
+	case "fmtpar":
+		// fmtpar metric|binary <goroutines> <n,n,...>: every goroutine renders every value (through the shared package-level
+		// Humaner) at the same time; the answer is the list of renderings of goroutine 0, or the first disagreement
+		h := &counts.Metric
+		if a[0] == "binary" {
+			h = &counts.Binary
+		}
+		g := int(u64(a[1]))
+		var vals []uint64
+		for _, f := range strings.Split(a[2], ",") {
+			vals = append(vals, u64(f))
+		}
+		outs := make([][]string, g)
+		var wg sync.WaitGroup
+		for w := 0; w < g; w++ {
+			wg.Add(1)
+			go func(w int) {
+				defer wg.Done()
+				for r := 0; r < 40; r++ {
+					cur := make([]string, len(vals))
+					for i := range vals {
+						k := (i + w*7) % len(vals)
+						num, unit := h.FormatNumber(vals[k], "")
+						cur[k] = num + "|" + unit
+					}
+					if outs[w] == nil {
+						outs[w] = cur
+					} else {
+						for i := range cur {
+							if cur[i] != outs[w][i] {
+								outs[w][i] = "UNSTABLE:" + outs[w][i] + "/" + cur[i]
+							}
+						}
+					}
+				}
+			}(w)
+		}
+		wg.Wait()
+		for w := 1; w < g; w++ {
+			for i := range vals {
+				if outs[w][i] != outs[0][i] {
+					outs[0][i] = "DIFFERS:" + outs[0][i] + "/" + outs[w][i]
+				}
+			}
+		}
+		return strings.Join(outs[0], ","), true
 	case "table":
 		// table <threshold> <namestyle> <22 nums comma separated> <groups sym=name=count,...|->
 		var thr sizes.Threshold
